@@ -63,3 +63,11 @@ def ordinal_ranks(v):
 
 def average_ranks(v):
     return rankdata(v)
+
+
+def putmask_compacted(a, b):
+    sel = a.sum(axis=1) > 0
+    vals = a[sel] @ b.T
+    out = np.zeros((a.shape[0], b.shape[0]))
+    np.putmask(out, np.outer(sel, np.ones(b.shape[0], bool)), vals)
+    return out
